@@ -968,9 +968,111 @@ func (a *Analysis) ruleS2() {
 		}
 	}
 	walk(fn, nil, fn == gateFn, 0, map[*ssa.Function]bool{})
+	// a lookup made outside the gate function is fine where the gate function has already
+	// returned a nil error: the call that leads to it, in a caller of the gate function, is
+	// dominated by the nil edge of the test of that error
+	passed := ZOf(a.Gate3.Accept...).Union(a.Gate3.Extra)
+	afterGate := func(lk *ssa.Lookup) bool {
+		if gateFn == fn {
+			return false
+		}
+		// blocks (in functions that call the gate function) dominated by its success edge
+		ok := map[*ssa.BasicBlock]bool{}
+		for f := range a.reachableFrom(fn) {
+			for _, c := range callsIn(f) {
+				cc, isCall := c.(*ssa.Call)
+				if !isCall || cc.Call.StaticCallee() != gateFn {
+					continue
+				}
+				nres := gateFn.Signature.Results().Len()
+				var errv ssa.Value = cc
+				if nres > 1 {
+					errv = nil
+					for _, ref := range *cc.Referrers() {
+						if ex, ok := ref.(*ssa.Extract); ok && ex.Index == nres-1 {
+							errv = ex
+						}
+					}
+				}
+				if errv == nil {
+					continue
+				}
+				for _, b := range f.Blocks {
+					for _, ce := range (&Eval{P: a.P}).ctrlEdges(b) {
+						cv := ce.If.Cond
+						hold := ce.Taken
+						for {
+							u, isNot := cv.(*ssa.UnOp)
+							if !isNot || u.Op != token.NOT {
+								break
+							}
+							hold = !hold
+							cv = u.X
+						}
+						bo, isBin := cv.(*ssa.BinOp)
+						if !isBin || (bo.Op != token.EQL && bo.Op != token.NEQ) {
+							continue
+						}
+						if !((bo.X == errv && isNilConst(bo.Y)) || (bo.Y == errv && isNilConst(bo.X))) {
+							continue
+						}
+						if (bo.Op == token.EQL) == hold {
+							ok[b] = true
+						}
+					}
+				}
+			}
+		}
+		// the lookup's own block, or a call site on the way to it, is such a block
+		var reachesVia func(f *ssa.Function, target *ssa.Lookup, depth int) bool
+		reachesVia = func(f *ssa.Function, target *ssa.Lookup, depth int) bool {
+			if depth > 6 {
+				return false
+			}
+			for _, b := range f.Blocks {
+				for _, in := range b.Instrs {
+					if in == ssa.Instruction(target) {
+						return ok[b]
+					}
+				}
+			}
+			return false
+		}
+		if reachesVia(lk.Parent(), lk, 0) {
+			return true
+		}
+		// call sites, in any caller, of the function containing the lookup (transitively)
+		target := lk.Parent()
+		seen := map[*ssa.Function]bool{}
+		var up func(t *ssa.Function, depth int) bool
+		up = func(t *ssa.Function, depth int) bool {
+			if depth > 6 || seen[t] {
+				return false
+			}
+			seen[t] = true
+			all, any := true, false
+			for f := range a.reachableFrom(fn) {
+				for _, c := range callsIn(f) {
+					if c.Common().StaticCallee() != t {
+						continue
+					}
+					any = true
+					if !(ok[c.Block()] || up(f, depth+1)) {
+						all = false
+					}
+				}
+			}
+			return any && all
+		}
+		return up(target, 0)
+	}
 	for _, s := range sites {
 		var reach ZSet
 		pre := s.before
+		if pre && afterGate(s.lk) {
+			pre = false
+			reach = passed
+		}
 		for _, b := range s.blocks {
 			reach = reach.Union(a.Gate3.Res.Reach[b])
 			if a.Gate3.Res.Pre[b] {
